@@ -213,7 +213,9 @@ def decide(pid, cfg, tier, seed, args):
         if q not in failing:
             continue
         errs = failing[q]
-        if any(e['rlimit'] for e in errs) or not all(e['semantic'] for e in errs):
+        # undecided when the verifier gave no semantic verdict at all (only resource limits / unsupported constructs);
+        # a semantic rejection next to an exhausted resource limit is still a rejection
+        if not any(e['semantic'] for e in errs) or any((not e['semantic']) and (not e['rlimit']) for e in errs):
             undecided.append((q, errs))
             continue
         k = next((k for k in open_findings if k['obligation'] == q), None)
